@@ -135,3 +135,21 @@ func init() {
 		return i.errAs(fr, err, target, pt.Elem(), 0)
 	}
 }
+
+// maps.clone (runtime linkname): a shallow copy of the map.
+func init() {
+	externals["maps.clone"] = func(fr *frame, a []value) value {
+		in := a[0].(iface)
+		m, ok := in.v.(*omap)
+		if !ok || m == nil {
+			return in
+		}
+		c := makeMap(m.keyT)
+		for _, e := range m.ents {
+			if !e.dead {
+				fr.i.mapInsert(c, e.k, copyVal(e.v))
+			}
+		}
+		return iface{in.t, c}
+	}
+}
